@@ -1,4 +1,10 @@
 //! vx_commit: storage-level explorations (K3 schedules, K4 crash/fault enumeration).
+mod c01;
+mod c02;
+mod c08;
+mod c10;
+mod seam;
+mod common;
 mod smoke;
 
 use vcore::{machinery_error, Ctx};
@@ -6,8 +12,13 @@ use vcore::{machinery_error, Ctx};
 fn main() {
     let ctx = Ctx::from_args();
     vcore::quiet_panics();
+    common::install_panic_site_hook();
     let out = match ctx.id.as_str() {
         "SMOKE" => smoke::run(&ctx),
+        "C01" => c01::run(&ctx),
+        "C02" => c02::run(&ctx),
+        "C10" => c10::run(&ctx),
+        "C08" => c08::run(&ctx),
         other => machinery_error(&format!("vx_commit does not implement {other}")),
     };
     vcore::finish(&ctx, out);
